@@ -258,6 +258,7 @@ class DataFrameModel(Generic[TDataFrame, TSchema], BaseModel):
                 "unique_column_names": cls.__config__.unique_column_names,
                 "add_missing_columns": cls.__config__.add_missing_columns,
                 "drop_invalid_rows": cls.__config__.drop_invalid_rows,
+                "metadata": cls.__config__.metadata,
             }
         cls.__schema__ = cls.build_schema_(**kwargs)
         if cls not in MODEL_CACHE:
